@@ -122,7 +122,7 @@ fn parse_cli(out: &str) -> Option<String> {
 fn do_cli(ctx: &mut Ctx, f: &[BigInt], ps: &[BigInt]) {
     let cfg = format!(
         "to_find = ['factorization-mod-p']\n[input.polynomial_and_primes]\npolynomial = {}\nprimes = {}\n",
-        toml_list(f),
+        toml_list_z(f, if f.is_empty() { 0 } else { variant_of(&[show_ints(f), show_ints(ps)]) % 3 }),
         toml_list(ps)
     );
     if let Some(out) = run_cli(&cfg) {
